@@ -1,6 +1,6 @@
 (* C08 — Meek rule closure is sound and complete on patterns.  Statements: C08/Spec.v; model: C08/Model.v. *)
 From Coq Require Import List Arith Bool.
-From PG Require Import Base.ListSet Graph.MGraph C08.Model C08.Spec C08.Proofs C08.Bounded_n4 C08.Refuted C08.Acyclic C08.Cover.
+From PG Require Import Base.ListSet Graph.MGraph C08.Model C08.Spec C08.Proofs C08.Bounded_n4 C08.Refuted C08.Acyclic C08.Cover C08.Fast C08.Bounded_n5 C08.Cover5 C08.Ext C08.ExtEss.
 Import ListNotations.
 
 (* unbounded: the closure only turns undirected edges into directed ones (nodes, skeleton, directed edges kept) *)
@@ -61,3 +61,35 @@ Theorem meek_complete_on_patterns_bounded_4_all : forall n d,
   V c = V d /\ set_eq (D d) (D c) /\ pdag_eqb (meek_model (pattern_of c)) (essential_graph c) = true.
 Proof. exact meek_complete_all_dags_4. Qed.
 Print Assumptions meek_complete_on_patterns_bounded_4_all.
+
+(* bounded, n <= 5: all 29281 DAGs on 5 nodes as well (table-driven per skeleton, C08/Fast.v: the acyclic orientations of a
+   skeleton and one v-structure signature per DAG are computed once; fast_skel_sig_sound proves it implies the naive check) *)
+Theorem meek_complete_on_patterns_bounded_5 :
+  forall n d, n <= 5 -> In d (all_dags n) -> pdag_eqb (meek_model (pattern_of d)) (essential_graph d) = true.
+Proof. exact meek_complete_on_patterns_bounded_5_proof. Qed.
+Print Assumptions meek_complete_on_patterns_bounded_5.
+
+Theorem meek_complete_on_patterns_bounded_5_all : forall n d,
+  n <= 5 -> V d = nodes n -> wfb d = true -> acyclicb d = true ->
+  let c := canon_dag n (D d) in
+  V c = V d /\ set_eq (D d) (D c) /\ pdag_eqb (meek_model (pattern_of c)) (essential_graph c) = true.
+Proof. exact meek_complete_all_dags_5. Qed.
+Print Assumptions meek_complete_on_patterns_bounded_5_all.
+
+(* graph extensionality (C08/Ext.v, C08/ExtEss.v): pattern_of, meek_model and the oracle essential_graph depend on a graph only
+   through its node list and the relations has_d / has_u (peq) ... *)
+Theorem meek_model_respects_relisting : forall g h, peq g h -> peq (meek_model g) (meek_model h).
+Proof. exact meek_model_ext. Qed.
+Print Assumptions meek_model_respects_relisting.
+
+Theorem essential_graph_respects_relisting : forall d c, peq d c -> peq (essential_graph d) (essential_graph c).
+Proof. exact essential_graph_ext. Qed.
+Print Assumptions essential_graph_respects_relisting.
+
+(* ... hence, for EVERY well-formed DAG on the nodes 0..n-1, n <= 5, with its OWN edge lists (any order, duplicates allowed):
+   the Meek closure of its pattern equals its essential graph *)
+Theorem meek_complete_on_patterns_bounded_5_every_dag : forall n d,
+  n <= 5 -> V d = nodes n -> wfb d = true -> acyclicb d = true -> B d = [] -> U d = [] -> C d = [] ->
+  pdag_eqb (meek_model (pattern_of d)) (essential_graph d) = true.
+Proof. exact meek_complete_every_dag_5. Qed.
+Print Assumptions meek_complete_on_patterns_bounded_5_every_dag.
